@@ -9,7 +9,9 @@ with TYPE = index into `CType.all`; lists are `,`-separated, `-` when empty.
 * `read FILE` (FILE = hex | `~` no file) → `ok CONFLICTS` | `E:Format` | `E:ValueError` | `E:KeyError` | `E:TypeError` | `E:Utf8`
 * `select RECURSE PATHS TREE CONFLICTS` (TREE = `PATH/ID,…`) → `NOTSELECTED;SELECTED`
 * `resolve RECURSE PATHS|~ TREE FILE` → hex of the new conflicts file | error
-* `mmwrite TREE3 HASHES` (TREE3 = `PATH/ID/SHA,…`, HASHES = `PATH/SHA,…`) → hex of the merge-hashes file
+* `resolveauto RECURSE PATHS|~ TREE FILE UNHANDLED` → same for `action="auto"`; UNHANDLED = the paths for which
+  `TextConflict.action_auto` raises NotImplementedError (not a regular file / conflict markers)
+* `mmwrite TREE3 HASHES` (TREE3 = `PATH/ID/SHA,…` with SHA = `~` when `get_file_sha1` gives None, HASHES = `PATH/SHA,…`) → hex of the merge-hashes file
 * `mmread TREE3 FILE` → `ok PATH/SHA,…` | error
 * `inside DIR FNAME` → `T`/`F`
 -/
@@ -71,7 +73,7 @@ def pTFile (s : String) : Option TFile :=
   | [a, b, c] => do
     let a ← pText a
     let b ← pText b
-    let c ← pText c
+    let c ← pOpt c
     pure ⟨a, b, c⟩
   | _ => none
 
@@ -136,6 +138,16 @@ def handle : List String → String
         | .ok none => "E:TypeError"
         | .error e => sErr e
     | _, _, _ => "bad-op"
+  | ["resolveauto", rec, paths, tree, f, unh] =>
+    let ps : Option (Option (List Str)) := if paths == "~" then some none else (pList pText paths).map some
+    match parseBool rec, ps, pList pPair tree, pList pText unh with
+    | some rec, some ps, some tree, some unh =>
+      withFile conflictHeader f fun f =>
+        match resolveWith (handlesAuto fun p => !unh.contains p) tree ps rec f with
+        | .ok (some t) => sText t
+        | .ok none => "E:TypeError"
+        | .error e => sErr e
+    | _, _, _, _ => "bad-op"
   | ["mmwrite", tree, hashes] =>
     match pList pTFile tree, pList pPair hashes with
     | some tree, some hashes => sText (setMergeModified tree hashes)
